@@ -11,183 +11,68 @@ import ZoektModel.Generated.QuerySwitches
 namespace ZoektModel.C18
 open ZoektModel.Query
 
-/-- the hypothesis of the `BranchesRepos → Branch` rewrite: if the first filter child of the top-level `And` is a
-    single-entry `BranchesRepos` for the branch `HEAD`, then in every listed repository `HEAD` names the first
-    branch and only that one (the layout Sourcegraph indexes). Without it the statement is false
-    (`C18_union_full_false`). -/
-def HeadSafe (shards : List RShard) (cs : List Q) : Prop :=
-  ∀ i l p br, firstFilter cs = some (i, .branchesRepos l, p) → l = [br] → br.1 = HEAD →
-    ∀ rs ∈ shards, ∀ r ∈ rs.listed, HeadFirst r
-
-theorem evalAll_false_of_mem (cs : List Q) (c : Q) (hc : c ∈ cs) (ctx s d) (h : eval c ctx s d = false) :
-    eval (.and cs) ctx s d = false := by
-  simp only [eval, evalAll_eq]
-  rw [List.all_eq_false]
-  exact ⟨c, hc, by simp [h]⟩
-
 /-- **`doSelectRepoSet`**: for every loaded shard and every live document of it,
     the shard is selected and the rewritten query matches ⇔ the original `And` matches -/
 theorem doSelectRepoSet_union_partial (ctx : List Shard) (shards : List RShard) (cs : List Q)
     (hwf : wf true true (.and cs) = true) (hH : HeadSafe shards cs)
     (rs : RShard) (hrs : rs ∈ shards) (d : Doc) (hl : rs.shard.live d = true) :
     (rs ∈ (doSelectRepoSet shards cs).1 ∧ eval (doSelectRepoSet shards cs).2 ctx rs.shard d = true) ↔
-      eval (.and cs) ctx rs.shard d = true := by
-  obtain ⟨r, hr, hlisted⟩ := live_listed rs d hl
-  unfold doSelectRepoSet
-  cases hff : firstFilter cs with
-  | none => simp [hrs]
-  | some x =>
-    obtain ⟨i, c, pred⟩ := x
-    obtain ⟨hci, hsel⟩ := firstFilter_spec cs i c pred hff
-    have hcm : c ∈ cs := List.mem_of_getElem? hci
-    -- a shard that is filtered out has no repository satisfying the predicate, so the child is false on `d`
-    have hout : rs ∉ (filterShards pred shards).1 → eval (.and cs) ctx rs.shard d = false := by
-      intro hn
-      have h1 : ¬ (rs.failed = true ∨ rs.listed.any pred = true) := fun h => hn ((filterShards_mem pred shards rs).2 ⟨hrs, h⟩)
-      have h2 : rs.listed.any pred = false := by
-        cases h : rs.listed.any pred with
-        | false => rfl
-        | true => exact absurd (Or.inr h) h1
-      have h3 : pred r = false := by
-        rw [List.any_eq_false] at h2
-        simpa using h2 r hlisted
-      exact evalAll_false_of_mem cs c hcm ctx _ d (selPred_sound c pred hsel ctx _ d r hr h3)
-    have hkeep : (rs ∈ (filterShards pred shards).1 ∧ eval (.and cs) ctx rs.shard d = true) ↔
-        eval (.and cs) ctx rs.shard d = true := by
-      constructor
-      · exact fun h => h.2
-      · intro h
-        refine ⟨?_, h⟩
-        apply Classical.byContradiction
-        intro hn
-        rw [hout hn] at h
-        cases h
-    simp only
-    split
-    · exact hkeep
-    · split
-      · exact hkeep
-      · rename_i hne hall
-        have hall' : (filterShards pred shards).2 = true := by simpa using hall
-        cases hrep : replacement c with
-        | none => exact hkeep
-        | some c' =>
-          simp only
-          constructor
-          · rintro ⟨hmem, hev⟩
-            obtain ⟨_, hallp⟩ := filterShards_all pred shards hall' rs hmem
-            have hp : pred r = true := List.all_eq_true.mp hallp r hlisted
-            obtain ⟨he, hw⟩ := replacement_eval c c' pred hsel hrep ctx rs.shard d r hr hp (by
-              intro l br hcl hl1 hb
-              subst hcl
-              exact hH i l pred br hff hl1 hb rs hrs r hlisted)
-            have hwf' : wf true true (.and (cs.set i c')) = true := by
-              simp only [wf, wfL_eq, List.all_eq_true] at hwf ⊢
-              intro x hx
-              rcases mem_set_cases cs i c' x hx with rfl | hx
-              · exact hw
-              · exact hwf x hx
-            have hs := (simplify_pres (nb := true) rfl (scope_nt ctx (InShard rs.shard))
-              (fun _ d hd => by obtain ⟨rfl, hl⟩ := hd; exact hl) _ hwf').2 rs.shard d ⟨rfl, hl⟩
-            rw [hs] at hev
-            simp only [eval, evalAll_eq] at hev ⊢
-            rw [all_set cs (fun c => eval c ctx rs.shard d) i c c' hci he] at hev
-            exact hev
-          · intro h
-            have hmem : rs ∈ (filterShards pred shards).1 := by
-              apply Classical.byContradiction
-              intro hn
-              rw [hout hn] at h
-              cases h
-            refine ⟨hmem, ?_⟩
-            obtain ⟨_, hallp⟩ := filterShards_all pred shards hall' rs hmem
-            have hp : pred r = true := List.all_eq_true.mp hallp r hlisted
-            obtain ⟨he, hw⟩ := replacement_eval c c' pred hsel hrep ctx rs.shard d r hr hp (by
-              intro l br hcl hl1 hb
-              subst hcl
-              exact hH i l pred br hff hl1 hb rs hrs r hlisted)
-            have hwf' : wf true true (.and (cs.set i c')) = true := by
-              simp only [wf, wfL_eq, List.all_eq_true] at hwf ⊢
-              intro x hx
-              rcases mem_set_cases cs i c' x hx with rfl | hx
-              · exact hw
-              · exact hwf x hx
-            have hs := (simplify_pres (nb := true) rfl (scope_nt ctx (InShard rs.shard))
-              (fun _ d hd => by obtain ⟨rfl, hl⟩ := hd; exact hl) _ hwf').2 rs.shard d ⟨rfl, hl⟩
-            rw [hs]
-            simp only [eval, evalAll_eq] at h ⊢
-            rw [all_set cs (fun c => eval c ctx rs.shard d) i c c' hci he]
-            exact h
-
-/-- the children `selectRepoSet` hands to `doSelectRepoSet` -/
-def topChildren : Q → List Q
-  | .and cs => cs
-  | q => [q]
+      eval (.and cs) ctx rs.shard d = true :=
+  doSelectRepoSet_union ctx shards cs hwf hH rs hrs d hl
 
 /-- **C18, shard pre-selection and filter rewrite** (`selectRepoSet`): for all sets of loaded shards (simple and
     compound, tombstoned repositories, shards whose repository list could not be cached), all queries without
-    `type:repo` nodes (replaced before, see `typeRepo_*`) and without empty `Branch` patterns (C05's known class),
-    every shard `rs` and every live document `d` of it:
-    `rs` is selected and the rewritten query matches `d`  ⇔  the original query matches `d`. -/
+    `type:repo` nodes (replaced before, see `typerepo_equiv_partial`) and without empty `Branch` patterns (C05's
+    known class), every shard `rs` and every live document `d` of it:
+    `rs` is selected and the rewritten query matches `d`  ⇔  the original query matches `d`.
+    `HeadSafe`: if the first filter child of the top-level `And` is a single-entry `BranchesRepos` for the branch
+    `HEAD`, then in every listed repository `HEAD` names the first branch and only that one. -/
 theorem C18_union_partial (ctx : List Shard) (shards : List RShard) (q : Q)
     (hwf : wf true true q = true) (hH : HeadSafe shards (topChildren q))
     (rs : RShard) (hrs : rs ∈ shards) (d : Doc) (hl : rs.shard.live d = true) :
     (rs ∈ (selectRepoSet shards q).1 ∧ eval (selectRepoSet shards q).2 ctx rs.shard d = true) ↔
-      eval q ctx rs.shard d = true := by
-  have single : ∀ q, (∀ cs, q ≠ .and cs) → wf true true q = true → HeadSafe shards [q] →
-      ((rs ∈ (doSelectRepoSet shards [q]).1 ∧ eval (simplify (doSelectRepoSet shards [q]).2) ctx rs.shard d = true) ↔
-        eval q ctx rs.shard d = true) := by
-    intro q _ hq hHq
-    have hwf1 : wf true true (.and [q]) = true := by simpa [wf, wfL] using hq
-    have h1 := doSelectRepoSet_union_partial ctx shards [q] hwf1 hHq rs hrs d hl
-    have hand : eval (.and [q]) ctx rs.shard d = eval q ctx rs.shard d := by simp [eval, evalAll]
-    rw [hand] at h1
-    -- the result of doSelectRepoSet is well formed, so the final Simplify preserves it
-    have hwf2 : wf true true (doSelectRepoSet shards [q]).2 = true := by
-      unfold doSelectRepoSet
-      cases hff : firstFilter [q] with
-      | none => exact hwf1
-      | some x =>
-        obtain ⟨i, c, pred⟩ := x
-        simp only
-        split
-        · exact hwf1
-        · split
-          · exact hwf1
-          · cases hrep : replacement c with
-            | none => exact hwf1
-            | some c' =>
-              simp only
-              obtain ⟨hci, hsel⟩ := firstFilter_spec [q] i c pred hff
-              have hw : wf true true c' = true := by
-                cases c <;> simp [selPred] at hsel <;> simp only [replacement] at hrep
-                all_goals first
-                  | (simp only [Option.some.injEq] at hrep; subst hrep; rfl)
-                  | skip
-                -- BranchesRepos
-                rename_i l
-                split at hrep
-                · split at hrep
-                  · simp at hrep
-                  · rename_i hne
-                    simp only [Option.some.injEq] at hrep; subst hrep
-                    simpa [wf] using hne
-                · simp at hrep
-              have hwf' : wf true true (.and ([q].set i c')) = true := by
-                simp only [wf, wfL_eq, List.all_eq_true]
-                intro x hx
-                rcases mem_set_cases [q] i c' x hx with rfl | hx
-                · exact hw
-                · simp at hx; subst hx; exact hq
-              exact (simplify_pres (nb := true) (ctx := ctx) rfl (scope_nt ctx (InShard rs.shard))
-                (fun _ d hd => by obtain ⟨rfl, hl⟩ := hd; exact hl) _ hwf').1
-    have hs := (simplify_pres (nb := true) rfl (scope_nt ctx (InShard rs.shard))
-      (fun _ d hd => by obtain ⟨rfl, hl⟩ := hd; exact hl) _ hwf2).2 rs.shard d ⟨rfl, hl⟩
-    rw [hs]
-    exact h1
-  cases q with
-  | and cs => exact doSelectRepoSet_union_partial ctx shards cs hwf hH rs hrs d hl
-  | _ => exact single _ (by intro cs h; cases h) hwf hH
+      eval q ctx rs.shard d = true :=
+  selectRepoSet_union ctx shards q hwf hH rs hrs d hl
+
+/-- **C18, `type:repo` pre-evaluation** (`typeRepoSearcher.eval`): replacing every `type:repo` sub-query, innermost
+    first and under any nesting of and/or/not/type/boost, by the `RepoSet` of the repositories the sharded `List`
+    returns for its child never changes which live documents of the corpus match, and leaves no `type:repo` node.
+    Hypotheses: shards of the current format in which every live repository has a document (`GoodShards`, the
+    property's quantifier), `HEAD` naming the first branch of every listed repository (`GlobalHead`, needed only
+    because the inner `List` goes through `selectRepoSet`), no empty `Branch` pattern, no parser-internal wrapper. -/
+theorem typerepo_equiv_partial (shards : List RShard) (hg : GoodShards shards) (hh : GlobalHead shards) (q : Q)
+    (hq : wf true false q = true) (hn : noScope q = true) :
+    wf true true (typeRepoEval shards q) = true ∧
+    ∀ s d, InCorpus (corpus shards) s d →
+      eval (typeRepoEval shards q) (corpus shards) s d = eval q (corpus shards) s d :=
+  typeRepoEval_spec shards hg hh q hq hn
+
+/-- the sharded `List` returns exactly the repositories that have a live matching document in some shard -/
+theorem sharded_list_exact_partial (shards : List RShard) (hg : GoodShards shards) (hh : GlobalHead shards) (q : Q)
+    (hq : wf true true q = true) (n : Str) :
+    n ∈ shardedListNames shards q ↔
+      ∃ rs ∈ shards, ∃ d ∈ rs.shard.docs, rs.shard.live d = true ∧ repoName rs.shard d = some n ∧
+        eval q (corpus shards) rs.shard d = true :=
+  shardedListNames_spec shards q hq hg hh n
+
+/-- **C18, end to end on the model**: what the searcher stack evaluates — replace `type:repo`, pre-select shards and
+    rewrite the filter, then in each selected shard simplify against the shard, expand and evaluate — selects a live
+    document of a loaded shard exactly when the *original* query matches it: the union of per-shard answers -/
+theorem C18_search_union_partial (shards : List RShard) (hg : GoodShards shards) (hh : GlobalHead shards) (q : Q)
+    (hq : wf true false q = true) (hn : noScope q = true)
+    (rs : RShard) (hrs : rs ∈ shards) (d : Doc) (hd : d ∈ rs.shard.docs) (hl : rs.shard.live d = true) :
+    (rs ∈ (selectRepoSet shards (typeRepoEval shards q)).1 ∧
+      eval (expand (shardSimplify rs.shard (selectRepoSet shards (typeRepoEval shards q)).2)) (corpus shards) rs.shard d = true) ↔
+    eval q (corpus shards) rs.shard d = true := by
+  unfold typeRepoEval corpus
+  obtain ⟨w1, e1⟩ := typeRepoEval_spec shards hg hh q hq hn
+  have w2 := selectRepoSet_wf shards _ w1
+  obtain ⟨hv, _⟩ := hg rs hrs
+  have hin : InCorpus (shards.map (·.shard)) rs.shard d := ⟨List.mem_map.mpr ⟨rs, hrs, rfl⟩, hd, hl⟩
+  obtain ⟨w3, e3⟩ := shardSimplify_pres (shards.map (·.shard)) (nb := true) rfl rs.shard hv _ w2
+  have e4 := (expand_pres (scope_nt (shards.map (·.shard)) (InShard rs.shard)) _ w3).2 rs.shard d ⟨rfl, hl⟩
+  rw [e4, e3 rs.shard d ⟨rfl, hl⟩, ← e1 rs.shard d hin]
+  exact selectRepoSet_union (shards.map (·.shard)) shards _ w1 (headSafe_of_global shards hh _) rs hrs d hl
 
 /-- **C18, listing**: the aggregation of the per-shard entry lists (`shardedSearcher.List`, in any arrival order
     `perShard`) returns each repository name once, exactly the names some shard listed, each with its statistics
@@ -228,6 +113,13 @@ example : checkAggregate [[([97], [1, 10, 2, 0, 0, 0, 0]), ([98], [1, 5, 1, 0, 0
   decide
 example : aggregate [[([97], [1, 10]), ([98], [1, 5])], [([97], [1, 7])]] = [([97], [2, 17]), ([98], [1, 5])] := by decide
 
+/-! ### generated-table obligations: the filter kinds `doSelectRepoSet` selects on and rewrites are the model's
+    `selPred` / `replacement` kinds (translator table `QuerySwitches`) -/
+theorem table_selectRepoSet : Gen.selectRepoSetCases =
+    ["*query.RepoSet", "*query.RepoIDs", "*query.Repo", "*query.BranchesRepos", "*query.Meta", "default"] := by decide
+theorem table_selectRepoSet_rewrite : Gen.selectRepoSetRewriteCases =
+    ["*query.RepoSet", "*query.RepoIDs", "*query.Repo", "*query.Meta", "*query.BranchesRepos"] := by decide
+
 /-! ### the full statement is false on the unchanged tree (`HeadSafe` cannot be dropped): `BranchesRepos[HEAD:{1}]` on a
     repository whose only branch is `main` — replayed on the real code by corpus/C18/branchesrepos-head.json -/
 
@@ -266,5 +158,25 @@ example : HeadSafe [exShardB] (topChildren (.branchesRepos [(HEAD, [2])])) := by
   cases j with
   | zero => simp [exRepoB]
   | succ k => simp [exRepoB, HEAD]
+
+example : GoodShards [exShardB] ∧ GlobalHead [exShardB] := by
+  refine ⟨?_, ?_⟩
+  · intro rs hrs
+    simp at hrs; subst hrs
+    refine ⟨by decide, ?_⟩
+    intro r hr _
+    have : r = exRepoB := by simpa [exShardB] using hr
+    subst this
+    exact ⟨⟨0, [0], [103], [], [], [], []⟩, by simp [exShardB], by simp [Shard.repoOf, exShardB]⟩
+  · intro rs hrs r hr
+    simp at hrs; subst hrs
+    have : r = exRepoB := by simpa [RShard.listed, exShardB, exRepoB] using hr
+    subst this
+    intro j
+    cases j with
+    | zero => simp [exRepoB]
+    | succ k => simp [exRepoB, HEAD]
+example : typeRepoEval [exShardB] (.and [.type 2 (.const true), .not (.type 2 (.repoIDs [9]))])
+    = .and [.repoSet [([98], true)], .not (.repoSet [])] := by rfl
 
 end ZoektModel.C18
